@@ -200,6 +200,7 @@ func main() {
 			baseFailed[o.Key] = true
 		}
 		res.Mutants = runMutants(def.ID, *repo, *verif, baseFailed)
+		res.Mutants = append(res.Mutants, runSeeds(def.ID, *repo, *verif, baseFailed)...)
 		for _, m := range res.Mutants {
 			if m.Applied && !m.Benign && !m.Detected {
 				selfTestBroken = true
@@ -408,6 +409,101 @@ func runMutant(self, prop, repo string, sp mutantSpec, baseFailed map[string]boo
 	}
 	sort.Strings(m.Fired)
 	return m
+}
+
+// runSeeds replays every kept seeded change of this property (/verif/seeded/<dir>/patch.diff whose meta.json names
+// the property) on a scratch copy of the current tree: the property's own rules must report it. A patch that no
+// longer applies to an edited tree is skipped and listed.
+func runSeeds(prop, repo, verif string, baseFailed map[string]bool) []mutantResult {
+	metas, _ := filepath.Glob(filepath.Join(verif, "seeded", "*", "meta.json"))
+	sort.Strings(metas)
+	type seedJob struct{ name, patch string }
+	var jobs []seedJob
+	for _, mf := range metas {
+		b, err := os.ReadFile(mf)
+		if err != nil {
+			continue
+		}
+		var meta struct {
+			Property string `json:"property"`
+		}
+		if json.Unmarshal(b, &meta) != nil || meta.Property != prop {
+			continue
+		}
+		d := filepath.Dir(mf)
+		jobs = append(jobs, seedJob{"seed:" + filepath.Base(d), filepath.Join(d, "patch.diff")})
+	}
+	results := make([]mutantResult, len(jobs))
+	self, _ := os.Executable()
+	sem := make(chan struct{}, 8)
+	var wg sync.WaitGroup
+	for i, j := range jobs {
+		wg.Add(1)
+		go func(i int, j seedJob) {
+			defer wg.Done()
+			sem <- struct{}{}
+			defer func() { <-sem }()
+			m := mutantResult{Name: j.name, Expect: prop + ".*"}
+			defer func() { results[i] = m }()
+			dir, err := os.MkdirTemp("", "verif-seed-")
+			if err != nil {
+				m.Note = err.Error()
+				return
+			}
+			defer os.RemoveAll(dir)
+			if out, err := exec.Command("rsync", "-a", "--exclude", ".git", repo+"/", dir+"/").CombinedOutput(); err != nil {
+				m.Note = "copy failed: " + string(out)
+				return
+			}
+			ap := exec.Command("git", "apply", "--whitespace=nowarn", j.patch)
+			ap.Dir = dir
+			ap.Env = append(os.Environ(), "GIT_CEILING_DIRECTORIES="+filepath.Dir(dir))
+			if out, err := ap.CombinedOutput(); err != nil {
+				m.Note = "skipped: the seeded patch does not apply to the current tree: " + firstLine(string(out))
+				return
+			}
+			m.Applied = true
+			c := exec.Command(self, "-child", "-prop", prop, "-tier", "quick", "-repo", dir)
+			c.Env = os.Environ()
+			out, err := c.Output()
+			if err != nil {
+				m.Note = "child failed: " + err.Error()
+				return
+			}
+			var co childOut
+			found := false
+			for _, line := range strings.Split(string(out), "\n") {
+				if strings.HasPrefix(line, "CHILD-RESULT ") {
+					if json.Unmarshal([]byte(strings.TrimPrefix(line, "CHILD-RESULT ")), &co) == nil {
+						found = true
+					}
+				}
+			}
+			if !found {
+				m.Note = "child produced no result"
+				return
+			}
+			seen := map[string]bool{}
+			for _, o := range co.Failed {
+				if baseFailed[o.Key] {
+					continue
+				}
+				if o.Rule == "R0" || strings.HasSuffix(o.Rule, ".R0") {
+					m.Note = "seeded patch does not compile on the current tree (skipped): " + firstLine(o.Detail)
+					m.Applied = false
+					return
+				}
+				if !seen[o.Rule] {
+					seen[o.Rule] = true
+					m.Fired = append(m.Fired, o.Rule)
+				}
+				m.Detected = true
+			}
+			sort.Strings(m.Fired)
+		}(i, j)
+	}
+	wg.Wait()
+	return results
 }
 
 func firstLine(s string) string {
